@@ -317,3 +317,34 @@ def same_numbers(k, x, y):
             continue
         return False
     return True
+
+
+def iteration_amplification(spec, base_graph_after, kw, delta=1e-11):
+    """Measured conditioning of the K-iteration map at this input: re-run the same optimize() call from initial poses right-perturbed by
+    `delta` (free vertices only) and return max pose difference / delta.  Comparisons between two executions that differ only by rounding can
+    legitimately differ by (rounding of the first solve) x this factor; a huge factor means the run is in a chaotic / expanding regime."""
+    from . import gen
+
+    rng = np.random.default_rng(987654321)
+    s2 = gen.copy_spec(spec)
+    s2.pop("share", None)
+    ffp = kw.get("fix_first_pose", True)
+    for j, v in enumerate(s2["vertices"]):
+        if v.get("fixed") or (ffp and j == 0):
+            continue
+        live = fl(mkpose(v["kind"], v["pose"]))
+        v["pose"] = gen.perturb(rng, v["kind"], live, delta, delta)
+    g2 = build(s2)
+    try:
+        quiet_optimize(g2, **kw)
+    except Exception:
+        return math.inf
+    worst = 0.0
+    for a, b in zip(base_graph_after._vertices, g2._vertices):
+        k = kind(a.pose)
+        p, q = fl(a.pose), fl(b.pose)
+        if not all(math.isfinite(x) for x in p + q):
+            return math.inf
+        dt, dr = pose_distance(k, p, q)
+        worst = max(worst, dt, dr)
+    return worst / delta
